@@ -51,6 +51,7 @@ def default_call(name, args):
 
 
 NONE = ("variant", "None", [], 0)
+_SYMVALS = []
 
 
 def some(x):
@@ -189,13 +190,20 @@ def _store(base, proj, v):
     raise Unrecognised("store through projection %r of %r" % (pr, base))
 
 
-def run(body, start_bb, env, call=None, max_steps=400, prog=None, depth=0, inline=False):
+def run(body, start_bb, env, call=None, max_steps=400, prog=None, depth=0, inline=False, symvals=None):
     """Interpret `body` from block start_bb with initial local environment env {local: value}.
     Values: int/bool, Sym, ('tuple', [...]), ('variant', name, [...]), ('closure', path, upvars).
     With `prog`, Option combinators taking closures are interpreted by running the closure bodies.
     Returns the value of _0."""
     if depth > 6:
         raise Unrecognised("closure nesting too deep")
+    if symvals is not None:
+        _SYMVALS.append(symvals)
+        try:
+            return run(body, start_bb, env, call=call, max_steps=max_steps, prog=prog, depth=depth, inline=inline, symvals=None)
+        finally:
+            _SYMVALS.pop()
+    symvals = _SYMVALS[-1] if _SYMVALS else None
     env = dict(env)
     bb = start_bb
     steps = 0
@@ -218,7 +226,8 @@ def run(body, start_bb, env, call=None, max_steps=400, prog=None, depth=0, inlin
                     v = v[1][pr["f"]]
                 elif isinstance(v, Sym):
                     # a part of an opaque value is an opaque value named after the access path
-                    v = Sym("%s.%s" % (v.name, pr.get("n") if pr.get("n") is not None else pr["f"]))
+                    nm_ = "%s.%s" % (v.name, pr.get("n") if pr.get("n") is not None else pr["f"])
+                    v = symvals[nm_] if symvals and nm_ in symvals else Sym(nm_)
                 else:
                     raise Unrecognised("field projection on %r" % (v,))
                 continue
